@@ -104,7 +104,7 @@ PANICKING_EXTERNALS = [
     r"::pow$", r"::abs$", r"::div_euclid$", r"::rem_euclid$", r"::next_power_of_two$", r"::ilog", r"char::from_digit$", r"char::to_digit$",
     r"Duration::new$", r"Duration::from_secs_f", r"Duration::mul_f", r"Duration::div_f",
     r"^fastrand::", r"^core::panicking::", r"^std::rt::begin_panic", r"^std::process::",
-    r"thread::spawn$", r"Instant::duration_since$",
+    r"thread::spawn$",
 ]
 OPS_TRAITS = re.compile(r"std::ops::(Add|Sub|Mul|Div|Rem|Neg|Shl|Shr|AddAssign|SubAssign|MulAssign|DivAssign|RemAssign|ShlAssign|ShrAssign)::")
 OPS_PANICKING_TYPES = ("u8", "u16", "u32", "u64", "usize", "u128", "i8", "i16", "i32", "i64", "isize", "i128",
